@@ -106,3 +106,58 @@ def compare(code: Rat, ref: Rat) -> tuple[str, str]:
 def returned_expr(fn: ast.AST) -> ast.AST | None:
     rets = [n for n in walk_no_nested(fn) if isinstance(n, ast.Return) and n.value is not None]
     return rets[0].value if len(rets) == 1 else None
+
+
+class _Renamer(ast.NodeTransformer):
+    def __init__(self, rename):
+        self.rename = rename
+
+    def visit_Name(self, n):
+        if n.id in self.rename:
+            return ast.copy_location(ast.Name(self.rename[n.id], ast.Load()), n)
+        return n
+
+    def visit_Attribute(self, n):
+        t = norm(n)
+        if t in self.rename:
+            return ast.copy_location(ast.Name(self.rename[t], ast.Load()), n)
+        return self.generic_visit(n)
+
+    def visit_Subscript(self, n):
+        t = norm(n)
+        if t in self.rename:
+            return ast.copy_location(ast.Name(self.rename[t], ast.Load()), n)
+        return self.generic_visit(n)
+
+    def visit_Call(self, n):
+        t = norm(n)
+        if t in self.rename:
+            return ast.copy_location(ast.Name(self.rename[t], ast.Load()), n)
+        return self.generic_visit(n)
+
+
+def nf_code(fn: ast.AST, expr: ast.AST, consts, rename=None, stop=()) -> Rat:
+    """Normal form of `expr` inside `fn`: single-def locals inlined except those
+    in `stop`/`rename`; names, attribute chains, subscripts and calls listed in
+    `rename` (by their source text) become the given symbols."""
+    rename = dict(rename or {})
+    env = {k: v for k, v in _inline_env(fn).items() if k not in stop and k not in rename}
+    r = _Renamer(rename)
+    e2 = r.visit(copy.deepcopy(expr))
+    env2 = {k: r.visit(copy.deepcopy(v)) for k, v in env.items()}
+    return normal_form(e2, env2, consts)
+
+
+def heads(r: Rat) -> list[str]:
+    return sorted(a.split('(')[0] for a in opaque_atoms(r))
+
+
+def compare2(code: Rat, ref: Rat) -> tuple[str, str]:
+    """Like compare(), but opaque atoms with the same function heads (exp vs exp,
+    pow vs pow) and different arguments count as a definite difference: only a
+    change of *structure* (exp(a)·exp(b) vs exp(a+b)) stays undecided."""
+    if poly_equal(code, ref):
+        return 'equal', 'normal forms are identical'
+    if heads(code) == heads(ref):
+        return 'different', f'code − reference = {str(code - ref)[:220]}'
+    return 'undecided', f'structure differs: code uses {heads(code)}, reference {heads(ref)}'
